@@ -77,13 +77,91 @@ def py_lev(s, t):
     return prev[-1]
 
 
+# ------------------------------------------------------------------ running the implementation in a forked child
+def _safe(fn, x):
+    try:
+        return fn(x)
+    except Exception as e:  # noqa: BLE001 - exceptions are outputs
+        return {"exc": f"{type(e).__name__}: {e}"}
+
+
+def isolated_map(ctx, fn, items, stream, replay_of, max_crashes=3):
+    """[fn(x) for x in items], computed in a forked child that streams its results back. An exception becomes the
+    output {"exc": ...}; if the child dies (abort, segfault, exit) the item it was working on is reported as a violation
+    (signature <stream>:crash, the input as replay), gets the output {"exc": "CRASH ..."} and a new child continues."""
+    import os
+    import pickle
+    import struct
+    items = list(items)
+    results = []
+    crashes = 0
+    while len(results) < len(items):
+        start = len(results)
+        r, w = os.pipe()
+        pid = os.fork()
+        if pid == 0:                                    # child: never returns
+            code = 0
+            try:
+                os.close(r)
+                for k in range(start, len(items)):
+                    blob = pickle.dumps(_safe(fn, items[k]))
+                    os.write(w, struct.pack("<I", len(blob)) + blob)
+            except BaseException:  # noqa: BLE001
+                code = 3
+            os._exit(code)
+        os.close(w)
+        with os.fdopen(r, "rb") as f:
+            while True:
+                head = f.read(4)
+                if len(head) < 4:
+                    break
+                (n,) = struct.unpack("<I", head)
+                blob = f.read(n)
+                if len(blob) < n:
+                    break
+                results.append(pickle.loads(blob))
+        _, status = os.waitpid(pid, 0)
+        if len(results) < len(items):                   # the child died on items[len(results)]
+            x = items[len(results)]
+            how = (f"signal {os.WTERMSIG(status)}" if os.WIFSIGNALED(status) else f"exit status {os.WEXITSTATUS(status)}")
+            ctx.violation(f"{stream}:crash", f"the process died ({how}) while running the implementation on {x!r}",
+                          replay_of(x))
+            ctx.tally(f"{stream}.crash")
+            results.append({"exc": f"CRASH {how}"})
+            crashes += 1
+            if crashes >= max_crashes:
+                results += [{"exc": "SKIPPED after repeated crashes"}] * (len(items) - len(results))
+    return results
+
+
+def is_exc(r):
+    return isinstance(r, dict) and "exc" in r
+
+
 # ------------------------------------------------------------------ drivers of the real implementation
-def impl_genotype(al):
-    """Genotype(al) and everything observable about it; None if the constructor raises RuntimeError."""
+CONTAINERS = ("list", "tuple", "generator", "numpy")
+
+
+def as_container(al, kind):
+    al = [int(a) for a in al]
+    if kind == "tuple":
+        return tuple(al)
+    if kind == "generator":
+        return (a for a in al)
+    if kind == "numpy":
+        import numpy
+        return numpy.array(al, dtype=numpy.int64)
+    return al
+
+
+def impl_genotype(item):
+    """item = (alleles, n, container kind). Genotype(alleles) and everything observable about it;
+    None if the constructor raises RuntimeError."""
     import copy
     from whatshap.core import Genotype
+    al, kind = item[0], (item[2] if len(item) > 2 else "list")
     try:
-        g = Genotype(list(al))
+        g = Genotype(as_container(al, kind))
     except RuntimeError:
         return None
     vec = [int(x) for x in g.as_vector()]
@@ -93,45 +171,93 @@ def impl_genotype(al):
     h = Genotype([])
     h.__setstate__(st)
     rvec = [int(x) for x in h.as_vector()]
-    req = bool(h == g) and not bool(h != g)
+    req = bool(h == g) and not bool(h != g) and bool(g == g) and not bool(g < g)
     s = str(g)
     sal = [] if s == "." else [int(x) for x in s.split("/")]
     dvec = [int(x) for x in copy.deepcopy(g).as_vector()]
-    return dict(vec=vec, idx=idx, pl=pl, sti=int(st[0]), stp=int(st[1]), rvec=rvec, req=req,
+    stable = (idx == int(g.get_index()) and vec == [int(x) for x in g.as_vector()])      # reading twice changes nothing
+    return dict(vec=vec, idx=idx, pl=pl, sti=int(st[0]), stp=int(st[1]), rvec=rvec, req=req and stable,
                 fn=bool(g.is_none()), fh=bool(g.is_homozygous()), fd=bool(g.is_diploid_and_biallelic()),
                 sal=sal, dvec=dvec, hidx=int(hash(g)), repr_ok=(repr(g) == s))
 
 
-def impl_unindex(i, p):
+def impl_unindex(item):
     from whatshap.core import Genotype
+    i, p = item[0], item[1]
     h = Genotype([])
     h.__setstate__((i, p))
     return dict(vec=[int(x) for x in h.as_vector()], idx=int(h.get_index()), pl=int(h.get_ploidy()))
 
 
-def impl_pair(al, bl):
+def impl_history(item):
+    """item = (initial alleles, [(index, ploidy, n, state_as_list)...]): ONE object receives all the states in turn;
+    a witness built from the initial alleles must stay what it was. Returns one snapshot per step + the witness."""
     from whatshap.core import Genotype
-    a, b = Genotype(list(al)), Genotype(list(bl))
+    al0, steps = item
+    h = Genotype(list(al0))
+    witness = Genotype(list(al0))
+    w0 = ([int(x) for x in witness.as_vector()], int(witness.get_index()))
+    out = []
+    prev = None
+    for i, p, _n, as_list in steps:
+        h.__setstate__([i, p] if as_list else (i, p))
+        snap = dict(vec=[int(x) for x in h.as_vector()], idx=int(h.get_index()), pl=int(h.get_ploidy()))
+        st = h.__getstate__()
+        snap["state_ok"] = (int(st[0]), int(st[1])) == (snap["idx"], snap["pl"])
+        if prev is not None:                             # a snapshot object of the previous state is not disturbed
+            snap["prev_ok"] = ([int(x) for x in prev[0].as_vector()] == prev[1])
+        keep = Genotype([])
+        keep.__setstate__(st)
+        prev = (keep, [int(x) for x in keep.as_vector()])
+        out.append(snap)
+    w1 = ([int(x) for x in witness.as_vector()], int(witness.get_index()))
+    return dict(steps=out, witness_ok=(w0 == w1))
+
+
+def impl_pair(item):
+    from whatshap.core import Genotype
+    al, bl = item[0], item[1]
+    a = Genotype(list(al))
+    b = a if (len(item) > 2 and item[2]) else Genotype(list(bl))       # item[2]: compare the object with itself
     return dict(lt=bool(a < b), gt=bool(b < a), eq=bool(a == b), ne=bool(a != b),
                 ia=int(a.get_index()), ib=int(b.get_index()))
 
 
-def impl_binom(n, k):
+def impl_collection(als):
+    """sorted / min / max / set / dict over one collection of genotypes (allele lists in the given order)."""
+    from whatshap.core import Genotype
+    gs = [Genotype(list(al)) for al in als]
+    out = sorted(gs)
+    same_objects = sorted(map(id, out)) == sorted(map(id, gs))
+    d = {}
+    for g in gs:
+        d[g] = d.get(g, 0) + 1
+    lookups = all(d.get(Genotype(list(reversed(al))), 0) >= 1 for al in als)
+    return dict(out=[[int(x) for x in reversed(g.as_vector())] for g in out],
+                nset=len(set(gs)), ndict=len(d), total=sum(d.values()), same_objects=same_objects, lookups=lookups,
+                imin=int(min(gs).get_index()) if gs else -1, imax=int(max(gs).get_index()) if gs else -1,
+                rsorted=[[int(x) for x in reversed(g.as_vector())] for g in sorted(gs, reverse=True)])
+
+
+def impl_binom(item):
     from whatshap.core import binomial_coefficient
-    return int(binomial_coefficient(n, k))
+    return int(binomial_coefficient(item[0], item[1]))
 
 
 MODES = ("str/str", "bytes/bytes", "str/bytes", "bytes/str")
 
 
-def impl_edit(s, t, e, mode=0):
-    """mode: index into MODES = python types of the two arguments (ASCII str and bytes denote the same byte string)."""
+def impl_edit(s, t, e, mode=0, kw=False):
+    """mode: index into MODES = python types of the two arguments (ASCII str and bytes denote the same byte string;
+    bytes are produced with latin-1 so that the byte-value stream can carry 0x00..0xff). kw: band passed by keyword."""
     from whatshap.align import edit_distance
     if mode in (1, 3):
-        s = s.encode()
+        s = s.encode("latin-1")
     if mode in (1, 2):
-        t = t.encode()
-    return int(edit_distance(s, t) if e is None else edit_distance(s, t, e))
+        t = t.encode("latin-1")
+    if e is None:
+        return int(edit_distance(s, t))
+    return int(edit_distance(s, t, maxdiff=e) if kw else edit_distance(s, t, e))
 
 
 # ------------------------------------------------------------------ Coq check functions
@@ -174,6 +300,13 @@ P_L2 = f"""fun c => {P_PAT}
                       Bool.eqb (g_lt32 g1 g2) lt && Bool.eqb (g_lt32 g2 g1) gt
   | _, _ => false
   end"""
+S_PAT = "let '(outs, routs, nset, imin, imax) := c in"
+S_BODY = """
+  let ix := map IDX outs in let rx := map IDX routs in
+  forallb (fun xy => fst xy <=? snd xy) (combine ix (tl ix)) && list_eqb rx (rev ix) &&
+  (nset =? Z.of_nat (length (nodup Z.eq_dec ix))) && (imin =? hd (-1) ix) && (imax =? last ix (-1))"""
+S_L1 = f"fun c => {S_PAT}" + S_BODY.replace("IDX", "(fun al => idx_desc_fast (rev (isort al)))")
+S_L2 = f"fun c => {S_PAT}" + S_BODY.replace("IDX", "(fun al => match mk32 al with inr g => get_index32 g | inl _ => -2 end)")
 B_L1 = "fun c => let '(n, k, r) := c in r =? choose_fast n k"
 B_L2 = "fun c => let '(n, k, r) := c in (r =? binom32 n k) && binom_exact wrap_s32 n k"
 M_L2 = "fun c => let '(al, iserr) := c in Bool.eqb iserr (match mk32 al with inl _ => true | inr _ => false end)"
@@ -210,137 +343,277 @@ def multisets(p, n):
     return itertools.combinations_with_replacement(range(n), p)
 
 
+def order_kind(al):
+    al = list(al)
+    if len(set(al)) <= 1:
+        return "constant"
+    if al == sorted(al):
+        return "ascending"
+    if al == sorted(al, reverse=True):
+        return "descending"
+    return "mixed"
+
+
+def exc_violation(ctx, stream, what, r, replay):
+    ctx.tally(f"{stream}.exception")
+    if not r["exc"].startswith(("CRASH", "SKIPPED")):          # a crash has been reported by isolated_map already
+        ctx.violation(f"{stream}:exception", f"{what} raised {r['exc']}", replay)
+
+
 def check_genotypes(ctx, inputs, label):
-    """inputs: list of (alleles in the order handed to the constructor, n = number of alleles of the space)."""
+    """inputs: (alleles in the order handed to the constructor, n = number of alleles of the space[, container])."""
+    inputs = [tuple(x) if len(x) > 2 else (x[0], x[1], "list") for x in inputs]
+    rep = lambda x: {"kind": "G", "al": list(x[0]), "n": x[1], "container": x[2]}
+    res = isolated_map(ctx, impl_genotype, inputs, "genotype", rep)
     cases, raw = [], []
-    for al, n in inputs:
-        r = impl_genotype(al)
-        if r is None or not r["repr_ok"]:
-            raw.append((al, n, r))
-            cases.append(None)
-            continue
-        raw.append((al, n, r))
-        cases.append(term((Raw(zl(al)), n, Raw(zl(r["vec"])), r["idx"], r["pl"], r["sti"], r["stp"], Raw(zl(r["rvec"])), r["req"],
-                           r["fn"], r["fh"], r["fd"], Raw(zl(r["sal"])), Raw(zl(r["dvec"])), r["hidx"])))
-        ctx.count(("G", tuple(al)), nontrivial=len(al) >= 2 and len(set(al)) >= 2)
+    for (al, n, kind), r in zip(inputs, res):
+        ctx.count(("G", tuple(al), kind), nontrivial=len(al) >= 2 and len(set(al)) >= 2)
         ctx.tally(f"genotype.{label}")
         ctx.tally(f"genotype.ploidy.{len(al)}")
-    l2 = []
-    idxmap = [i for i, c in enumerate(cases) if c is not None]
-    for i, c in enumerate(cases):
-        if c is None:
-            al, n, r = raw[i]
+        ctx.tally(f"genotype.max_allele.{max(al) if len(al) else 'none'}")
+        ctx.tally(f"genotype.arg_order.{order_kind(al)}")
+        ctx.tally(f"genotype.container.{kind}")
+        ctx.tally("genotype.homozygous" if len(set(al)) == 1 else "genotype.heterozygous" if al else "genotype.empty")
+        if is_exc(r):
+            exc_violation(ctx, "genotype", f"Genotype({kind} {list(al)}) / its accessors", r, rep((al, n, kind)))
+            continue
+        if r is None or not r["repr_ok"]:
             ctx.violation("genotype:constructor-rejects-valid",
-                          f"Genotype({list(al)}) within the limits raised RuntimeError or repr != str", {"kind": "G", "al": list(al), "n": n})
-    failing = evaluate("C19g", {"L1": G_L1, "L2": G_L2}, [cases[i] for i in idxmap])
+                          f"Genotype({list(al)}) within the limits raised RuntimeError or repr != str", rep((al, n, kind)))
+            continue
+        raw.append((al, n, kind, r))
+        cases.append(term((Raw(zl(al)), n, Raw(zl(r["vec"])), r["idx"], r["pl"], r["sti"], r["stp"], Raw(zl(r["rvec"])), r["req"],
+                           r["fn"], r["fh"], r["fd"], Raw(zl(r["sal"])), Raw(zl(r["dvec"])), r["hidx"])))
+    failing = evaluate("C19g", {"L1": G_L1, "L2": G_L2}, cases)
     for k in failing["L1"]:
-        al, n, r = raw[idxmap[k]]
+        al, n, kind, r = raw[k]
         ctx.violation("genotype:index-roundtrip",
-                      f"Genotype({list(al)}): as_vector/get_index/__getstate__/__setstate__ contradict the canonical index: {r}",
-                      {"kind": "G", "al": list(al), "n": n})
-    for k in failing["L2"]:
-        al, n, r = raw[idxmap[k]]
-        l2.append({"al": list(al), "n": n, "impl": r})
+                      f"Genotype({kind} {list(al)}): as_vector/get_index/__getstate__/__setstate__ contradict the canonical index: {r}",
+                      rep((al, n, kind)))
+    l2 = [{"al": list(raw[k][0]), "n": raw[k][1], "impl": raw[k][3]} for k in failing["L2"]]
+    return raw, failing, l2
+
+
+def _unindex_cases(ctx, triples, results, label, what_of, replay_of):
+    """shared by the fresh-object stream and the histories: (i, p, n) with the observed vec / idx / ploidy."""
+    cases, raw = [], []
+    for (i, p, n), r, w, rp in zip(triples, results, what_of, replay_of):
+        ctx.count(("U", label, i, p), nontrivial=i > 0 and p >= 2)
+        ctx.tally(f"unindex.{label}")
+        ctx.tally(f"unindex.ploidy.{p}")
+        if is_exc(r):
+            exc_violation(ctx, "unindex", w, r, rp)
+            continue
+        raw.append((i, p, n, r, w, rp))
+        cases.append(term((i, p, n, Raw(zl(r["vec"])), r["idx"], r["pl"])))
+    failing = evaluate("C19u", {"L1": U_L1, "L2": U_L2}, cases)
+    for k in failing["L1"]:
+        i, p, n, r, w, rp = raw[k]
+        ctx.violation("genotype:unindex", f"{w} gives {r}: not the genotype of ploidy {p} over {n} alleles with index {i}", rp)
+    l2 = [{"i": raw[k][0], "p": raw[k][1], "impl": raw[k][3], "how": raw[k][4]} for k in failing["L2"]]
     return raw, failing, l2
 
 
 def check_unindex(ctx, inputs, label):
-    """inputs: list of (index, ploidy, n)."""
-    cases, raw = [], []
-    for i, p, n in inputs:
-        r = impl_unindex(i, p)
-        raw.append((i, p, n, r))
-        cases.append(term((i, p, n, Raw(zl(r["vec"])), r["idx"], r["pl"])))
-        ctx.count(("U", i, p), nontrivial=i > 0 and p >= 2)
-        ctx.tally(f"unindex.{label}")
-    failing = evaluate("C19u", {"L1": U_L1, "L2": U_L2}, cases)
-    for k in failing["L1"]:
-        i, p, n, r = raw[k]
-        ctx.violation("genotype:unindex",
-                      f"__setstate__(({i}, {p})) gives {r}: not the genotype of ploidy {p} over {n} alleles with index {i}",
-                      {"kind": "U", "i": i, "p": p, "n": n})
-    l2 = [{"i": raw[k][0], "p": raw[k][1], "impl": raw[k][3]} for k in failing["L2"]]
-    return raw, failing, l2
+    """inputs: list of (index, ploidy, n); a fresh object per input."""
+    inputs = [tuple(x) for x in inputs]
+    rep = lambda x: {"kind": "U", "i": x[0], "p": x[1], "n": x[2]}
+    res = isolated_map(ctx, impl_unindex, inputs, "unindex", rep)
+    return _unindex_cases(ctx, inputs, res, label, [f"Genotype([]).__setstate__(({i}, {p}))" for i, p, _ in inputs],
+                          [rep(x) for x in inputs])
+
+
+def check_histories(ctx, hists, label):
+    """hists: list of (initial alleles, [(index, ploidy, n, state_as_list)...])."""
+    rep = lambda h: {"kind": "H", "al0": list(h[0]), "steps": [list(s) for s in h[1]]}
+    res = isolated_map(ctx, impl_history, hists, "history", rep)
+    triples, results, what, reps = [], [], [], []
+    for h, r in zip(hists, res):
+        ctx.tally(f"history.{label}.objects")
+        ctx.tally("history.initial." + ("empty" if not h[0] else "nonempty"))
+        if is_exc(r):
+            ctx.count(("H", tuple(h[0]), tuple(map(tuple, h[1]))), nontrivial=True)
+            exc_violation(ctx, "history", f"history {rep(h)}", r, rep(h))
+            continue
+        if not r["witness_ok"]:
+            ctx.violation("genotype:history-aliasing", f"an unrelated Genotype({list(h[0])}) changed during the history {h[1]}", rep(h))
+        for k, (st, snap) in enumerate(zip(h[1], r["steps"])):
+            ctx.tally("history.state_as." + ("list" if st[3] else "tuple"))
+            if not snap.get("state_ok", True) or not snap.get("prev_ok", True):
+                ctx.violation("genotype:history-aliasing",
+                              f"step {k} of history {rep(h)}: __getstate__ differs from (get_index, get_ploidy) or an earlier "
+                              f"snapshot object changed: {snap}", rep(h))
+            triples.append((st[0], st[1], st[2]))
+            results.append(snap)
+            what.append(f"step {k} (__setstate__(({st[0]}, {st[1]}))) of a history on one object starting from Genotype({list(h[0])})")
+            reps.append(rep((h[0], h[1][:k + 1])))
+    return _unindex_cases(ctx, triples, results, f"history.{label}", what, reps)
 
 
 def check_pairs(ctx, pairs, label):
+    """pairs: (al, bl[, same_object])."""
+    pairs = [tuple(x) if len(x) > 2 else (x[0], x[1], False) for x in pairs]
+    rep = lambda x: {"kind": "P", "al": list(x[0]), "bl": list(x[1]), "same": bool(x[2])}
+    res = isolated_map(ctx, impl_pair, pairs, "pairs", rep)
     cases, raw = [], []
-    for al, bl in pairs:
-        r = impl_pair(al, bl)
-        raw.append((al, bl, r))
-        cases.append(term((Raw(zl(al)), Raw(zl(bl)), r["lt"], r["gt"], r["eq"], r["ne"], r["ia"], r["ib"])))
-        ctx.count(("P", tuple(al), tuple(bl)), nontrivial=sorted(al) != sorted(bl))
+    for (al, bl, same), r in zip(pairs, res):
+        ctx.count(("P", tuple(al), tuple(bl), same), nontrivial=sorted(al) != sorted(bl))
         ctx.tally(f"pairs.{label}")
+        ia, ib = py_index(al), py_index(bl)                      # oracle used for the tallies only
+        rel = ("same_object" if same else "different_ploidy" if len(al) != len(bl) else
+               "equal_multiset" if sorted(al) == sorted(bl) else "adjacent_index" if abs(ia - ib) == 1 else "other")
+        ctx.tally(f"pairs.relation.{rel}")
+        if is_exc(r):
+            exc_violation(ctx, "pairs", f"comparing Genotype({list(al)}) and Genotype({list(bl)})", r, rep((al, bl, same)))
+            continue
+        raw.append((al, bl, same, r))
+        cases.append(term((Raw(zl(al)), Raw(zl(bl)), r["lt"], r["gt"], r["eq"], r["ne"], r["ia"], r["ib"])))
     failing = evaluate("C19p", {"L1": P_L1, "L2": P_L2}, cases)
     for k in failing["L1"]:
-        al, bl, r = raw[k]
+        al, bl, same, r = raw[k]
         ctx.violation("genotype:order-vs-index",
                       f"Genotype({list(al)}) vs Genotype({list(bl)}): ==, !=, < = {r} disagree with the canonical index / multiset equality",
-                      {"kind": "P", "al": list(al), "bl": list(bl)})
-    l2 = [{"al": list(raw[k][0]), "bl": list(raw[k][1]), "impl": raw[k][2]} for k in failing["L2"]]
+                      rep((al, bl, same)))
+    l2 = [{"al": list(raw[k][0]), "bl": list(raw[k][1]), "impl": raw[k][3]} for k in failing["L2"]]
+    return raw, failing, l2
+
+
+def check_collections(ctx, colls, label):
+    """colls: lists of allele lists (one ploidy per collection): sorted / reversed sort / min / max / set / dict."""
+    rep = lambda c: {"kind": "S", "als": [list(a) for a in c]}
+    res = isolated_map(ctx, impl_collection, colls, "collection", rep)
+    cases, raw = [], []
+    for c, r in zip(colls, res):
+        ctx.count(("S", tuple(map(tuple, c))), nontrivial=len({tuple(sorted(a)) for a in c}) >= 2)
+        ctx.tally(f"collection.{label}")
+        ctx.tally("collection.elements", len(c))
+        ctx.tally("collection.with_duplicates" if len({tuple(sorted(a)) for a in c}) < len(c) else "collection.all_distinct")
+        if is_exc(r):
+            exc_violation(ctx, "collection", f"sorted/min/max/set/dict over {c}", r, rep(c))
+            continue
+        if not (r["same_objects"] and r["lookups"] and r["nset"] == r["ndict"] and r["total"] == len(c)
+                and sorted(map(sorted, r["out"])) == sorted(map(sorted, c))):
+            ctx.violation("genotype:hash-eq", f"set/dict/sorted over {c} lost or duplicated elements: {r}", rep(c))
+        raw.append((c, r))
+        cases.append(term((Raw("[" + "; ".join(zl(a) for a in r["out"]) + "]") if r["out"] else Raw("(@nil (list Z))"),
+                           Raw("[" + "; ".join(zl(a) for a in r["rsorted"]) + "]") if r["rsorted"] else Raw("(@nil (list Z))"),
+                           r["nset"], r["imin"], r["imax"])))
+    failing = evaluate("C19s", {"L1": S_L1, "L2": S_L2}, cases)
+    for k in failing["L1"]:
+        c, r = raw[k]
+        ctx.violation("genotype:order-vs-index",
+                      f"sorted()/min/max/set over the genotypes {c} do not follow the canonical index: {r}", rep(c))
+    l2 = [{"als": [list(a) for a in raw[k][0]], "impl": raw[k][1]} for k in failing["L2"]]
     return raw, failing, l2
 
 
 def check_binom(ctx, nks, label):
+    nks = [tuple(x) for x in nks]
+    rep = lambda x: {"kind": "B", "n": x[0], "k": x[1]}
+    res = isolated_map(ctx, impl_binom, nks, "binom", rep)
     cases, raw = [], []
-    for n, k in nks:
-        r = impl_binom(n, k)
-        raw.append((n, k, r))
-        cases.append(term((n, k, r)))
+    for (n, k), r in zip(nks, res):
         ctx.count(("B", n, k), nontrivial=0 < k < n)
         ctx.tally(f"binom.{label}")
+        ctx.tally("binom.case." + ("k<0" if k < 0 else "n<0" if n < 0 else "k>n" if k > n else
+                                   "k=0_or_n" if k in (0, n) else "k<=n-k" if k <= n - k else "k>n-k"))
+        if is_exc(r):
+            exc_violation(ctx, "binom", f"binomial_coefficient({n}, {k})", r, rep((n, k)))
+            continue
+        raw.append((n, k, r))
+        cases.append(term((n, k, r)))
     failing = evaluate("C19b", {"L1": B_L1, "L2": B_L2}, cases)
     for i in failing["L1"]:
         n, k, r = raw[i]
-        ctx.violation("binom:value", f"binomial_coefficient({n}, {k}) = {r} is not C(n,k)", {"kind": "B", "n": n, "k": k})
+        ctx.violation("binom:value", f"binomial_coefficient({n}, {k}) = {r} is not C(n,k)", rep((n, k)))
     l2 = [{"n": raw[i][0], "k": raw[i][1], "impl": raw[i][2]} for i in failing["L2"]]
     return raw, failing, l2
 
 
 def check_malformed(ctx, als):
+    items = [(list(al), 16, "list") for al in als]
+    res = isolated_map(ctx, impl_genotype, items, "malformed", lambda x: {"kind": "G", "al": list(x[0]), "n": 16, "container": "list"})
     cases, raw = [], []
-    for al in als:
-        r = impl_genotype(al)
-        raw.append((al, r is None))
-        cases.append(term((Raw(zl(al)), r is None)))
+    for (al, _, _), r in zip(items, res):
         ctx.count(("M", tuple(al)), nontrivial=False)
         ctx.tally("genotype.malformed")
+        ctx.tally("genotype.malformed." + ("ploidy" if len(al) >= 15 else "allele"))
+        err = "RuntimeError" if r is None else (r["exc"].split(":")[0] if is_exc(r) else None)
+        raw.append((al, err))
+        cases.append(term((Raw(zl(al)), err == "RuntimeError")))
     failing = evaluate("C19m", {"L2": M_L2}, cases)
-    return [{"al": list(raw[i][0]), "impl_raises": raw[i][1]} for i in failing["L2"]]
+    bad = set(failing["L2"]) | {i for i, (_, err) in enumerate(raw) if err not in (None, "RuntimeError")}
+    return [{"al": list(raw[i][0]), "impl_error": raw[i][1]} for i in sorted(bad)]
 
 
-def check_pickle(ctx, als):
-    """the pickle / copy protocols themselves (not expressible in Coq: the failure mode is an exception);
-    the restored object must be == the original, with the same vector and index."""
+def impl_pickle(item):
+    """item = (alleles, history of states applied before pickling). Returns the first failing route or None."""
     import copy
     import pickle
     from whatshap.core import Genotype
-    for al in als:
-        g = Genotype(list(al))
-        routes = [(f"pickle protocol {pr}", (lambda pr=pr: pickle.loads(pickle.dumps(g, protocol=pr))))
-                  for pr in range(pickle.HIGHEST_PROTOCOL + 1)]
-        routes.append(("copy.copy", lambda: copy.copy(g)))
-        routes.append(("copy.deepcopy", lambda: copy.deepcopy(g)))
-        for name, fn in routes:
-            ctx.count(("pickle", tuple(al), name), nontrivial=len(set(al)) >= 2)
-            ctx.tally("genotype.pickle")
-            try:
-                h = fn()
-                ok = (bool(h == g) and not bool(h != g) and list(h.as_vector()) == list(g.as_vector())
-                      and h.get_index() == g.get_index() and h.get_ploidy() == g.get_ploidy() and h is not g)
-                what = f"{name} of Genotype({list(al)}) gives {h} (index {h.get_index()}), original index {g.get_index()}"
-            except Exception as e:  # noqa: BLE001 - any failure to restore is the finding
-                ok = False
-                what = (f"{name} of Genotype({list(al)}) raises {type(e).__name__}: {e} "
-                        "(state save/restore through the pickle protocol does not work)")
+    al, states = item
+    g = Genotype(list(al))
+    for st in states:
+        g.__setstate__(tuple(st))
+
+    def same(h):
+        return (bool(h == g) and not bool(h != g) and list(h.as_vector()) == list(g.as_vector())
+                and h.get_index() == g.get_index() and h.get_ploidy() == g.get_ploidy() and h is not g)
+    routes = [(f"pickle protocol {pr}", (lambda pr=pr: pickle.loads(pickle.dumps(g, protocol=pr))))
+              for pr in range(pickle.HIGHEST_PROTOCOL + 1)]
+    routes.append(("copy.copy", lambda: copy.copy(g)))
+    routes.append(("copy.deepcopy", lambda: copy.deepcopy(g)))
+    n = 0
+    for name, fn in routes:
+        n += 1
+        try:
+            h = fn()
+            if not same(h):
+                return n, f"{name} gives {h} (index {h.get_index()}) for the original {g} (index {g.get_index()})"
+        except Exception as e:  # noqa: BLE001 - any failure to restore is the finding
+            return n, f"{name} raises {type(e).__name__}: {e} (state save/restore through the pickle protocol does not work)"
+    for pr in (0, 2, pickle.HIGHEST_PROTOCOL):                      # inside containers, the same object twice (memo)
+        n += 1
+        try:
+            box = pickle.loads(pickle.dumps({"l": [g, g], "d": {g: 1}, "t": (g, Genotype([0]))}, protocol=pr))
+            ok = (same(box["l"][0]) and box["l"][0] is box["l"][1] and box["d"].get(g) == 1 and same(box["t"][0])
+                  and list(box["t"][1].as_vector()) == [0])
             if not ok:
-                ctx.violation("genotype:pickle-cinit", what, {"kind": "pickle", "al": list(al)})
-                return False
+                return n, f"pickle protocol {pr} of containers holding the genotype gives {box}"
+            box2 = copy.deepcopy([g, g])
+            if not (same(box2[0]) and box2[0] is box2[1]):
+                return n, f"copy.deepcopy([g, g]) gives {box2}"
+        except Exception as e:  # noqa: BLE001
+            return n, f"pickling containers that hold the genotype (protocol {pr}) raises {type(e).__name__}: {e}"
+    return n, None
+
+
+def check_pickle(ctx, items):
+    """the pickle / copy protocols themselves (not expressible in Coq: the failure mode is an exception);
+    the restored object must be == the original, with the same vector, index and ploidy."""
+    items = [(list(al), [list(s) for s in states]) for al, states in items]
+    rep = lambda x: {"kind": "pickle", "al": list(x[0]), "states": x[1]}
+    res = isolated_map(ctx, impl_pickle, items, "pickle", rep)
+    for x, r in zip(items, res):
+        ctx.tally("genotype.pickle.objects")
+        ctx.tally("genotype.pickle." + ("after_history" if x[1] else "fresh"))
+        if is_exc(r):
+            ctx.count(("pickle", repr(x)), nontrivial=True)
+            exc_violation(ctx, "pickle", f"pickling Genotype({x[0]}) after states {x[1]}", r, rep(x))
+            continue
+        n, bad = r
+        ctx.count(("pickle", repr(x)), nontrivial=len(set(x[0])) >= 2, k=n)
+        ctx.tally("genotype.pickle.routes", n)
+        if bad:
+            ctx.violation("genotype:pickle-cinit", f"Genotype({x[0]}) after states {x[1]}: {bad}", rep(x))
+            return False
     return True
 
 
 # ------------------------------------------------------------------ edit distance streams
 ALPHA = "ACG"
+INT_MAX = 2 ** 31 - 1
+HUGE_BANDS = [10 ** 6, 2 ** 30, INT_MAX - 200, INT_MAX - 2, INT_MAX - 1, INT_MAX]
 
 
 def codes(s):
@@ -350,48 +623,109 @@ def codes(s):
 ALL_MODES = (0, 1, 2, 3)
 
 
-def edit_case(s, t, bands, modes=ALL_MODES):
-    """every (band, argument-type combination): list of (mode, maxdiff or -1 for the default argument, result)."""
+def edit_case(item):
+    """item = (s, t, bands, modes, kw): every (band, argument-type combination):
+    list of (mode, maxdiff or -1 for the default argument, result)."""
+    s, t, bands, modes, kw = item
     out = []
     for mode in modes:
         for e in bands:
-            out.append((mode, -1 if e is None else e, impl_edit(s, t, e, mode)))
+            out.append((mode, -1 if e is None else e, impl_edit(s, t, e, mode, kw and mode in (1, 2))))
     return out
 
 
-def check_edit(ctx, triples, label, fast=False, name="C19e", shard=500, modes=ALL_MODES):
-    """triples: list of (s, t, bands); bands contain ints (-1 = explicit no band) or None (default argument).
+def relation(s, t):
+    if s == t:
+        return "equal"
+    if not s or not t:
+        return "one_empty"
+    if t.startswith(s) or s.startswith(t):
+        return "prefix_of"
+    if t.endswith(s) or s.endswith(t):
+        return "suffix_of"
+    pre, suf = s[0] == t[0], s[-1] == t[-1]
+    return "common_prefix_and_suffix" if pre and suf else "common_prefix" if pre else "common_suffix" if suf else "no_common_end"
+
+
+def bucket(n):
+    return "0" if n == 0 else "1" if n == 1 else "2" if n == 2 else "3-5" if n <= 5 else "6-20" if n <= 20 else "21-80" if n <= 80 else "81+"
+
+
+def tally_edit(ctx, label, s, t, bands):
+    d = py_lev(s, t)                                  # oracle used for the tallies only
+    m, n = len(s), len(t)
+    ctx.tally(f"edit.relation.{relation(s, t)}")
+    ctx.tally(f"edit.len.{bucket(m)}x{bucket(n)}" if label != "exhaustive" else f"edit.len_exh.{m}x{n}")
+    ctx.tally("edit.shape." + ("m<n" if m < n else "m=n" if m == n else "m>n"))
+    for e in bands:
+        if e is None:
+            ctx.tally("edit.band.default_argument")
+        elif e == -1:
+            ctx.tally("edit.band.explicit_-1")
+        elif e < -1:
+            ctx.tally("edit.band.below_-1")
+        else:
+            ctx.tally("edit.band_vs_dist." + ("e<d-1" if e < d - 1 else "e=d-1" if e == d - 1 else "e=d" if e == d else
+                                              "e=d+1" if e == d + 1 else "e>d+1"))
+            ctx.tally("edit.band_vs_lendiff." + ("e<|m-n|" if e < abs(m - n) else "e=|m-n|" if e == abs(m - n) else "e>|m-n|"))
+            ctx.tally("edit.band_vs_maxlen." + ("e<max-1" if e < max(m, n) - 1 else "e=max-1" if e == max(m, n) - 1 else
+                                                "e=max" if e == max(m, n) else "e>max" if e < 10 ** 5 else "e_huge"))
+
+
+def check_edit(ctx, triples, label, fast=False, name="C19e", shard=500, modes=ALL_MODES, with_model=True,
+               overflow_sig=None):
+    """triples: list of (s, t, bands[, kw]); bands contain ints (-1 = explicit no band) or None (default argument).
     Every call is made for each argument-type combination in `modes`; the Coq case carries the set of distinct
     (maxdiff, result) observations (the model and the specification do not depend on the python type)."""
+    items = [(tr[0], tr[1], list(tr[2]), tuple(modes), bool(tr[3]) if len(tr) > 3 else False) for tr in triples]
+    rep = lambda x: {"kind": "E", "s": x[0], "t": x[1], "bands": [(-1 if b is None else b) for b in x[2]],
+                     "modes": list(x[3]), "kw": x[4]}
+    res = isolated_map(ctx, edit_case, items, "editdist", rep)
     cases, raw = [], []
-    for tr in triples:
-        s, t, bands = tr[0], tr[1], tr[2]
-        obs = edit_case(s, t, bands, modes)
-        ers = sorted({(e, r) for _, e, r in obs})
-        raw.append((s, t, obs, ers))
-        cases.append(term((Raw(zl(codes(s))), Raw(zl(codes(t))), [(e, r) for e, r in ers])))
-        ctx.count(("E", s, t, tuple(sorted({e for e, _ in ers}))), nontrivial=bool(s) and bool(t) and s != t, k=len(obs))
+    for x, obs in zip(items, res):
+        s, t, bands = x[0], x[1], x[2]
+        ncalls = len(bands) * len(modes)
+        ctx.count(("E", s, t, tuple(-1 if b is None else b for b in bands), tuple(modes)),
+                  nontrivial=bool(s) and bool(t) and s != t, k=ncalls)
         ctx.tally(f"edit.{label}.pairs")
-        ctx.tally(f"edit.{label}.calls", len(obs))
+        ctx.tally(f"edit.{label}.calls", ncalls)
+        for mo in modes:
+            ctx.tally(f"edit.types.{MODES[mo]}", len(bands))
+        if x[4]:
+            ctx.tally("edit.band.by_keyword", len(bands) * len([mo for mo in modes if mo in (1, 2)]))
+        tally_edit(ctx, label, s, t, bands)
+        if is_exc(obs):
+            exc_violation(ctx, "editdist", f"edit_distance({s!r}, {t!r}, maxdiff in {bands}) for argument types {[MODES[mo] for mo in modes]}", obs, rep(x))
+            continue
+        ers = sorted({(e, r) for _, e, r in obs})
+        raw.append((x, obs, ers))
+        cases.append(term((Raw(zl(codes(s))), Raw(zl(codes(t))), [(e, r) for e, r in ers])))
         if len(ers) != len({e for e, _ in ers}):
             ctx.tally(f"edit.{label}.type_dependent_results")
-    failing = evaluate(name, {"L1": EF_L1 if fast else E_L1, "L2": E_L2}, cases, shard=shard)
+    fns = {"L1": EF_L1 if fast else E_L1}
+    if with_model:
+        fns["L2"] = E_L2
+    failing = evaluate(name, fns, cases, shard=shard)
     for i in failing["L1"]:
-        s, t, obs, ers = raw[i]
+        x, obs, ers = raw[i]
+        s, t = x[0], x[1]
         d = py_lev(s, t)                          # only to name the offending calls in the message
         bad = [(MODES[m], e, r) for m, e, r in obs if not ((r == d) if (e == -1 or d <= e) else r > e)]
         sig = "editdist:not-levenshtein" if (not bad or any(e == -1 for _, e, _ in bad)) else "editdist:band-contract"
+        if overflow_sig and bad and all(e >= INT_MAX - len(t) - 1 for _, e, _ in bad):
+            sig = overflow_sig
         ctx.violation(sig,
                       f"edit_distance({s!r}, {t!r}, maxdiff): (argument types, maxdiff, result) = {bad[:8] or ers}; "
-                      f"the Levenshtein distance is {d}",
-                      {"kind": "E", "s": s, "t": t, "bands": sorted({e for _, e, _ in obs})})
-    l2 = [{"s": raw[i][0], "t": raw[i][1], "impl": [(MODES[m], e, r) for m, e, r in raw[i][2]][:40]} for i in failing["L2"]]
+                      f"the Levenshtein distance is {d}", rep(x))
+    l2 = [{"s": raw[i][0][0], "t": raw[i][0][1], "impl": [(MODES[m], e, r) for m, e, r in raw[i][1]][:40]}
+          for i in failing.get("L2", [])]
+    failing.setdefault("L2", [])
     return raw, failing, l2
 
 
-def all_strings(maxlen):
+def all_strings(maxlen, alpha=ALPHA):
     for L in range(maxlen + 1):
-        for tup in itertools.product(ALPHA, repeat=L):
+        for tup in itertools.product(alpha, repeat=L):
             yield "".join(tup)
 
 
@@ -408,25 +742,31 @@ def mutate(rng, s, alpha, k):
     return "".join(s)
 
 
-def gen_random_edit(rng, n, maxlen):
+def gen_random_edit(rng, n, maxlen, alphas=("A", "AC", "ACG", "ACGT", "ACGTN", "acgtnACGTN-*")):
     out = []
     for _ in range(n):
-        alpha = rng.choice(["AC", "ACG", "ACGT", "ACGTN"])
-        L = rng.randint(0, maxlen)
+        alpha = rng.choice(alphas)
+        L = rng.choice([rng.randint(0, maxlen), rng.randint(0, 6)])
         s = "".join(rng.choice(alpha) for _ in range(L))
         mode = rng.random()
-        if mode < 0.6:
+        if mode < 0.5:
             t = mutate(rng, s, alpha, rng.randint(0, 8))
-        elif mode < 0.8:
+        elif mode < 0.7:
             t = "".join(rng.choice(alpha) for _ in range(rng.randint(0, maxlen)))
+        elif mode < 0.8:                          # one string a prefix / suffix / infix of the other
+            a, b = sorted((rng.randint(0, L), rng.randint(0, L)))
+            t = rng.choice([s[:a], s[a:], s[a:b]])
         else:                                   # long common prefix/suffix around a small difference
             core = mutate(rng, s[L // 3: 2 * L // 3], alpha, rng.randint(0, 3))
             t = s[:L // 3] + core + s[2 * L // 3:]
+        if rng.random() < 0.5:
+            s, t = t, s
         d = py_lev(s, t)                        # oracle only used to place the bands around the interesting values
-        bands = {None, -1, 0, 1, 2, 3, max(0, d - 2), max(0, d - 1), d, d + 1, d + 2, abs(len(s) - len(t)),
-                 max(0, abs(len(s) - len(t)) - 1), len(s) + len(t) + 3, rng.randint(0, maxlen)}
-        bl = sorted((b for b in bands if b is not None)) + [None]
-        out.append((s, t, bl))
+        ld, mx = abs(len(s) - len(t)), max(len(s), len(t))
+        bands = {-1, 0, 1, 2, 3, max(0, d - 2), max(0, d - 1), d, d + 1, d + 2, ld, max(0, ld - 1), ld + 1,
+                 max(0, mx - 1), mx, mx + 1, len(s) + len(t) + 3, rng.randint(0, maxlen), rng.choice([-2, -3, -100, 5000])}
+        bl = sorted(bands) + [None]
+        out.append((s, t, bl, rng.random() < 0.5))
     return out
 
 
@@ -435,13 +775,19 @@ NONASCII = [("é", "è"), ("é", "a"), ("aé", "ab"), ("aé", "aè"), ("üü", "
 
 def check_nonascii(ctx):
     """str arguments with non-ASCII characters: distance over characters (code points)."""
+    items = [(s, t, [None, 1], (0,), False) for s, t in NONASCII]
+    rep = lambda x: {"kind": "nonascii", "s": x[0], "t": x[1]}
+    res = isolated_map(ctx, edit_case, items, "editdist", rep)
     cases, raw = [], []
-    for s, t in NONASCII:
-        ers = sorted({(e, r) for _, e, r in edit_case(s, t, [None, 1], modes=(0,))})
-        raw.append((s, t, ers))
-        cases.append(term((Raw(zl(codes(s))), Raw(zl(codes(t))), [(e, r) for e, r in ers])))
-        ctx.count(("E8", s, t), nontrivial=True, k=len(ers))
+    for x, obs in zip(items, res):
+        ctx.count(("E8", x[0], x[1]), nontrivial=True, k=2)
         ctx.tally("edit.nonascii.pairs")
+        if is_exc(obs):
+            exc_violation(ctx, "editdist", f"edit_distance({x[0]!r}, {x[1]!r})", obs, rep(x))
+            continue
+        ers = sorted({(e, r) for _, e, r in obs})
+        raw.append((x[0], x[1], ers))
+        cases.append(term((Raw(zl(codes(x[0]))), Raw(zl(codes(x[1]))), [(e, r) for e, r in ers])))
     failing = evaluate("C19n", {"L1": E_L1}, cases)
     for i in failing["L1"]:
         s, t, ers = raw[i]
@@ -461,14 +807,14 @@ def search_genotype(ctx):
         p = rng.randint(0, 14)
         n = rng.randint(1, 16)
         al = [rng.randrange(n) for _ in range(p)]
-        r = impl_genotype(al)
+        r = _safe(impl_genotype, (al, n, "list"))
         ctx.count(("G", tuple(al)), nontrivial=len(set(al)) >= 2)
-        if r is None or r["vec"] != sorted(al, reverse=True) or r["idx"] != py_index(al) or r["rvec"] != r["vec"] or not r["req"]:
+        if r is None or is_exc(r) or r["vec"] != sorted(al, reverse=True) or r["idx"] != py_index(al) or r["rvec"] != r["vec"] or not r["req"]:
             cand_g.append((al, n))
         if p:
             i = rng.randrange(py_binom(n + p - 1, p))
-            u = impl_unindex(i, p)
-            if py_index(u["vec"]) != i or u["idx"] != i or len(u["vec"]) != p or (u["vec"] and max(u["vec"]) >= n):
+            u = _safe(impl_unindex, (i, p, n))
+            if is_exc(u) or py_index(u["vec"]) != i or u["idx"] != i or len(u["vec"]) != p or (u["vec"] and max(u["vec"]) >= n):
                 cand_u.append((i, p, n))
         if len(cand_g) + len(cand_u) >= 3:
             break
@@ -481,16 +827,12 @@ def search_genotype(ctx):
 def search_edit(ctx):
     rng = ctx.rng
     cand = []
-    for s, t, bands in gen_random_edit(rng, 20000, 24):
+    for s, t, bands, kw in gen_random_edit(rng, 20000, 24):
         d = py_lev(s, t)
-        for mode in ALL_MODES:
-            for e in bands:
-                r = impl_edit(s, t, e, mode)
-                ee = -1 if e is None else e
-                ok = (r == d) if (ee == -1 or d <= ee) else r > ee
-                ctx.count(("E", s, t, ee, mode), nontrivial=bool(s) and bool(t) and s != t)
-                if not ok and (s, t, [e]) not in cand:
-                    cand.append((s, t, [e]))
+        obs = _safe(edit_case, (s, t, bands, ALL_MODES, kw))
+        ctx.count(("Esearch", s, t), nontrivial=bool(s) and bool(t) and s != t, k=len(bands) * 4)
+        if is_exc(obs) or any(not ((r == d) if (e == -1 or d <= e) else r > e) for _, e, r in obs):
+            cand.append((s, t, bands, kw))
         if len(cand) >= 3:
             break
     if cand:
@@ -498,7 +840,25 @@ def search_edit(ctx):
 
 
 # ------------------------------------------------------------------ driver
+def gen_histories(rng, count, steps, big_share):
+    hs = []
+    for _ in range(count):
+        al0 = [] if rng.random() < 0.4 else [rng.randrange(16) for _ in range(rng.randint(1, 14))]
+        st = []
+        for _ in range(rng.randint(2, steps)):
+            p = rng.randint(7, 14) if rng.random() < big_share else rng.randint(0, 5)
+            n = rng.randint(1, 16) if p > 5 else rng.randint(1, 7)
+            total = py_binom(n + p - 1, p)
+            i = rng.choice([0, total - 1, rng.randrange(total), rng.randrange(total)])
+            st.append((i, p, n, rng.random() < 0.5))
+            if rng.random() < 0.25:                       # the same state twice in a row
+                st.append((i, p, n, rng.random() < 0.5))
+        hs.append((al0, st))
+    return hs
+
+
 def run(ctx):
+    import time
     rng = ctx.rng
     from whatshap.core import get_max_genotype_ploidy, get_max_genotype_alleles
     lim = (int(get_max_genotype_ploidy()), int(get_max_genotype_alleles()))
@@ -511,29 +871,33 @@ def run(ctx):
     for p in range(PMAX + 1):
         for ms in multisets(p, NMAX):
             n_eff = (max(ms) + 1) if ms else 1          # the tightest allele count: implies the bound for every larger n
-            g_inputs.append((list(ms), n_eff))
+            g_inputs.append((list(ms), n_eff, rng.choice(CONTAINERS)))
             if len(set(ms)) >= 2:
                 sh = list(ms)
                 rng.shuffle(sh)
-                g_inputs.append((sh, NMAX))
-                g_inputs.append((list(reversed(ms)), n_eff))
+                g_inputs.append((sh, NMAX, rng.choice(CONTAINERS)))
+                g_inputs.append((list(reversed(ms)), n_eff, "list"))
     corpus = [([2, 0, 1], 3), ([], 1), ([15] * 14, 16), ([0] * 14, 1), ([15] + [0] * 13, 16), (list(range(14)), 14),
-              (list(range(15, 1, -1)), 16), ([7] * 14, 8), ([15], 16), ([14, 15] * 7, 16)]
+              (list(range(15, 1, -1)), 16), ([7] * 14, 8), ([15], 16), ([14, 15] * 7, 16), ([0], 1), ([0, 15], 16)]
+    corpus += [([], 1, k) for k in CONTAINERS] + [([15] * 14, 16, k) for k in CONTAINERS]
     n_samp = ctx.n(600, 12000)
     samp = []
     for _ in range(n_samp):
         p = rng.choice([rng.randint(0, 14), rng.randint(7, 14), 14])
         n = rng.choice([rng.randint(1, 16), 16])
-        samp.append(([rng.randrange(n) for _ in range(p)], n))
-    import time
+        al = [rng.randrange(n) for _ in range(p)]
+        o = rng.random()
+        al = sorted(al) if o < 0.2 else sorted(al, reverse=True) if o < 0.4 else al
+        samp.append((al, n, rng.choice(CONTAINERS)))
     t0 = time.time()
     raw, failing, l2g = check_genotypes(ctx, corpus + g_inputs + samp, "all")
     ctx.log(f"genotypes: {len(raw)} cases, {time.time()-t0:.0f}s")
     ctx.extra["genotypes_exhaustive"] = {"ploidy<=": PMAX, "alleles<=": NMAX,
                                          "multisets": sum(1 for p in range(PMAX + 1) for _ in multisets(p, NMAX))}
-    for al, n, r in raw[:2]:
+    for al, n, kind, r in raw[:2]:
         ctx.sample({"Genotype": al, "impl": r})
 
+    # ---- index -> genotype on fresh objects: exhaustive small, sampled, and around every boundary C(p+a-1, p)
     u_inputs = []
     for p in range(0, PMAX + 1):
         for n in range(1, NMAX + 1):
@@ -541,81 +905,167 @@ def run(ctx):
             lo = py_binom(n - 1 + p - 1, p) if n > 1 and p > 0 else 0      # indices new for this n (smaller ones: smaller n)
             for i in range(lo, total):
                 u_inputs.append((i, p, n))
-    for _ in range(ctx.n(400, 6000)):
+    for _ in range(ctx.n(300, 6000)):
         p = rng.choice([rng.randint(1, 14), 14, 13])
         n = rng.choice([rng.randint(1, 16), 16])
         total = py_binom(n + p - 1, p)
         i = rng.choice([rng.randrange(total), total - 1, rng.randrange(total)])
         u_inputs.append((i, p, n))
     u_inputs += [(77558759, 14, 16), (0, 14, 16), (77558758, 14, 16), (1, 14, 2), (15, 1, 16)]
+    bnd = []
+    for p in range(1, 15):
+        for a in range(1, 16):                       # f = index of the first genotype of ploidy p that uses allele a
+            f = py_binom(p + a - 1, p)
+            bnd += [(f - 1, p, a), (f, p, a + 1), (f + 1, p, a + 1 if p > 1 else a + 2)]
+    bnd = [x for x in bnd if x[2] <= 16 and x[0] < py_binom(x[2] + x[1] - 1, x[1])]
+    if ctx.quick:
+        keep = [x for x in bnd if x[1] in (1, 2, 13, 14)]
+        rest = [x for x in bnd if x[1] not in (1, 2, 13, 14)]
+        bnd = keep + rng.sample(rest, 90)
     t0 = time.time()
     rawu, failu, l2u = check_unindex(ctx, u_inputs, "all")
-    ctx.log(f"unindex: {len(rawu)} cases, {time.time()-t0:.0f}s")
+    rawb2, failb2, l2b2 = check_unindex(ctx, bnd, "boundary")
+    ctx.log(f"unindex: {len(rawu)} + {len(rawb2)} boundary cases, {time.time()-t0:.0f}s")
     ctx.sample({"__setstate__": list(rawu[-1][:2]), "impl": rawu[-1][3]})
+
+    # ---- histories: one object is reused for many __setstate__ calls
+    t0 = time.time()
+    hists = [([], [(5, 2, 3, False), (0, 0, 1, False), (5, 3, 3, True), (5, 3, 3, False), (77558759, 14, 16, False), (1, 1, 2, True)]),
+             ([3, 1, 2], [(0, 3, 1, False), (9, 2, 4, True)])]
+    hists += gen_histories(rng, ctx.n(50, 600), 14, 0.15)
+    rawh, failh, l2h = check_histories(ctx, hists, "all")
+    ctx.log(f"histories: {len(hists)} objects, {len(rawh)} steps, {time.time()-t0:.0f}s")
+    ctx.sample({"history_on_one_object": hists[0], "last_snapshot": rawh[5][3] if len(rawh) > 5 else None})
 
     # ---- ordering / equality: all ordered pairs of the small genotypes, incl. different ploidies
     pp, pn = ctx.n((3, 4), (4, 4))
     small = [list(ms) for p in range(pp + 1) for ms in multisets(p, pn)]
-    pairs = [(a, b) for a in small for b in small]
-    big = [x[0] for x in samp[: ctx.n(150, 2000)]]
+    pairs = [(a, b, False) for a in small for b in small]
+    pairs += [(a, a, True) for a in small[:: 2]]                    # the very same object on both sides
+    big = [list(x[0]) for x in samp[: ctx.n(150, 2000)]]
     for a in big:
         b = list(a)
         if b and rng.random() < 0.7:
             b[rng.randrange(len(b))] = rng.randrange(16)
         rng.shuffle(b)
-        pairs.append((a, b))
-        pairs.append((b, a))
+        pairs.append((a, b, False))
+        pairs.append((b, a, False))
+    for _ in range(ctx.n(120, 1500)):                               # neighbours in the index order, up to the limits
+        p = rng.randint(1, 14)
+        n = rng.randint(2, 16)
+        i = rng.randrange(py_binom(n + p - 1, p) - 1)
+        u = _safe(impl_unindex, (i, p, n))
+        v = _safe(impl_unindex, (i + 1, p, n))
+        if not is_exc(u) and not is_exc(v):
+            pairs.append((u["vec"], v["vec"], False))
+            pairs.append((v["vec"], u["vec"], False))
     t0 = time.time()
     rawp, failp, l2p = check_pairs(ctx, pairs, "all")
     ctx.log(f"pairs: {len(rawp)} cases, {time.time()-t0:.0f}s")
     ctx.extra["pairs_exhaustive"] = {"ploidy<=": pp, "alleles<=": pn, "genotypes": len(small), "ordered_pairs": len(small) ** 2}
 
+    # ---- sorted / min / max / set / dict over collections (one ploidy each), shuffled, with duplicates
+    colls = []
+    for p in range(0, 5):
+        for n in range(1, 5):
+            ms = [list(x) for x in multisets(p, n)]
+            c = ms + [list(reversed(x)) for x in rng.sample(ms, min(3, len(ms)))]
+            rng.shuffle(c)
+            colls.append(c)
+    for _ in range(ctx.n(60, 600)):
+        p = rng.randint(1, 14)
+        n = rng.randint(1, 16)
+        c = [[rng.randrange(n) for _ in range(p)] for _ in range(rng.randint(1, 12))]
+        c += [list(x) for x in rng.sample(c, rng.randint(0, min(3, len(c))))]
+        rng.shuffle(c)
+        colls.append(c)
+    colls += [[], [[]], [[], []], [[1, 0]], [[0, 1], [1, 0]]]
+    t0 = time.time()
+    raws, fails, l2s = check_collections(ctx, colls, "all")
+    ctx.log(f"collections: {len(raws)} cases, {time.time()-t0:.0f}s")
+    ctx.sample({"sorted/min/max/set over": colls[5], "impl": raws[5][1]})
+
     # ---- binomial coefficient within the domain used by the limits (n <= 29), plus the guards
-    nks = [(n, k) for n in range(-2, 30) for k in range(-2, n + 3)]
+    nks = [(n, k) for n in range(-2, 30) for k in range(-2, n + 3)] + [(-5, -7), (-2147483648, 3), (3, -2147483648), (29, 4000), (0, 0), (0, 1), (1, 0)]
     rawb, failb, l2b = check_binom(ctx, nks, "n<=29")
     over = [(n, k) for n in (30, 31, 33, 34, 40) for k in (n // 2, n // 2 - 1, 3)]
     ctx.extra["binom_beyond_limits_informational"] = [
-        {"n": n, "k": k, "impl": impl_binom(n, k), "exact": py_binom(n, k)} for n, k in over]
+        {"n": n, "k": k, "impl": _safe(impl_binom, (n, k)), "exact": py_binom(n, k)} for n, k in over]
 
     # ---- malformed stream (error class only)
-    mal = [[0] * 15, [0] * 16, [15] * 15, [16], [0, 16], [17, 3], [255], [1, 2, 3, 100], [0] * 14 + [16], [16] * 15, [4294967295]]
+    mal = [[0] * 15, [0] * 16, [15] * 15, [16], [0, 16], [17, 3], [255], [1, 2, 3, 100], [0] * 14 + [16], [16] * 15, [4294967295],
+           [0] * 40, [16] * 14, [15] * 13 + [16]]
     l2m = check_malformed(ctx, mal)
 
-    l2_all = l2g + l2u + l2p + l2b + l2m
+    l2_all = l2g + l2u + l2b2 + l2h + l2p + l2s + l2b + l2m
     if l2_all:
         ctx.disagreements_checked += len(l2_all)
         ctx.l2_disagreement("GenotypeIndex model = whatshap.core.Genotype / binomial_coefficient (L2)", l2_all)
-        if not (failing["L1"] or failu["L1"] or failp["L1"] or failb["L1"]):
+        if not (failing["L1"] or failu["L1"] or failb2["L1"] or failh["L1"] or failp["L1"] or fails["L1"] or failb["L1"]):
             search_genotype(ctx)
 
-    # ---- the pickle protocol
-    check_pickle(ctx, [[0, 1], [2, 0, 1], [], [15] * 14, [3, 3, 0, 7, 15]])
+    # ---- the pickle / copy protocols (fresh objects and objects with a history; inside containers)
+    check_pickle(ctx, [([0, 1], []), ([2, 0, 1], []), ([], []), ([15] * 14, []), ([3, 3, 0, 7, 15], []),
+                       ([], [(5, 3)]), ([1, 2], [(0, 0)]), ([0], [(77558759, 14), (2, 2)]), ([9, 9], [(7, 4), (7, 4)])])
 
-    # ---- edit distance: exhaustive small pairs x every band
+    # ---- edit distance: exhaustive small pairs x every band x every argument-type combination
     L = ctx.n(4, 5)
     strs = list(all_strings(L))
     bands = [None, -1, 0, 1, 2, 3, 4, 5, 6]
-    triples = [(s, t, bands) for s in strs for t in strs]
+    triples = [(s, t, bands + [-2, -5] if (i + j) % 5 == 0 else bands, (i + 2 * j) % 3 == 0)
+               for i, s in enumerate(strs) for j, t in enumerate(strs)]
     t0 = time.time()
     rawe, faile, l2e = check_edit(ctx, triples, "exhaustive", shard=500)
     ctx.log(f"edit exhaustive: {len(rawe)} pairs, {time.time()-t0:.0f}s")
     ctx.extra["edit_exhaustive"] = {"alphabet": ALPHA, "maxlen": L, "strings": len(strs), "ordered_pairs": len(triples),
-                                    "bands": "-1..6 (+ default argument)", "argument_types": list(MODES)}
+                                    "bands": "-1..6 (+ default argument; a fifth of the pairs also -2, -5)",
+                                    "argument_types": list(MODES)}
     ctx.exhaustive = True
-    ctx.sample({"edit_distance": [rawe[-2][0], rawe[-2][1]], "(maxdiff, result), same for all 4 argument-type combinations": rawe[-2][3]})
+    ctx.sample({"edit_distance": [rawe[-2][0][0], rawe[-2][0][1]], "(maxdiff, result), same for all 4 argument-type combinations": rawe[-2][2]})
     corpus_e = [("ABCDEF", "ABXDEF", [None, 0, 1, 2]), ("", "", [None, 0]), ("", "ACGT", [None, 0, 3, 4, 5]),
                 ("GATTACA", "GCATGCU", [None, 0, 1, 2, 3, 4, 5]), ("kitten", "sitting", [None, 1, 2, 3, 4]),
-                ("A" * 40, "A" * 20 + "C" + "A" * 19, [None, 0, 1]), ("ACGT" * 10, "TGCA" * 10, [None, 5, 10, 20, 40])]
+                ("A" * 40, "A" * 20 + "C" + "A" * 19, [None, 0, 1]), ("ACGT" * 10, "TGCA" * 10, [None, 5, 10, 20, 40]),
+                ("ACG", "CGA", [None, 1, 2, 3, 4]), ("A" * 30, "A" * 33, [None, 2, 3, 4]), ("AC" * 15, "CA" * 15, [None, 1, 2, 3, 29, 30, 31])]
     rnd = gen_random_edit(rng, ctx.n(500, 3000), ctx.n(60, 80))
     t0 = time.time()
     rawr, failr, l2r = check_edit(ctx, corpus_e + rnd, "random", fast=True, name="C19r", shard=200)
     ctx.log(f"edit random: {len(rawr)} pairs, {time.time()-t0:.0f}s")
-    ctx.sample({"edit_distance": [rawr[-1][0], rawr[-1][1]], "(maxdiff, result), same for all 4 argument-type combinations": rawr[-1][3]})
-    l2_all = l2e + l2r
+    ctx.sample({"edit_distance": [rawr[-1][0][0], rawr[-1][0][1]], "(maxdiff, result), same for all 4 argument-type combinations": rawr[-1][2]})
+
+    # ---- bytes with the values 0x00, 0x41, 0x80, 0xff (bytes/bytes only: such str arguments are the non-ASCII stream)
+    balpha = "\x00A\x80\xff"
+    bstrs = list(all_strings(3, balpha))
+    btr = [(s, t, [None, 0, 1, 2, 3]) for s in bstrs for t in bstrs if (hash((s, t)) % 4 == 0 or len(s) + len(t) <= 3)]
+    btr += [(s, t, bl, kw) for s, t, bl, kw in gen_random_edit(rng, ctx.n(60, 600), 30, alphas=(balpha, "\x00\xff"))]
+    t0 = time.time()
+    rawy, faily, l2y = check_edit(ctx, btr, "bytevalues", fast=True, name="C19y", shard=300, modes=(1,))
+    ctx.log(f"edit byte values: {len(rawy)} pairs, {time.time()-t0:.0f}s")
+
+    # ---- a few long strings
+    longs = []
+    for _ in range(ctx.n(6, 40)):
+        Ls = rng.randint(120, 220)
+        s = "".join(rng.choice("ACGT") for _ in range(Ls))
+        t = mutate(rng, s, "ACGT", rng.randint(0, 12)) if rng.random() < 0.8 else "".join(rng.choice("ACGT") for _ in range(rng.randint(100, 220)))
+        d = py_lev(s, t)
+        longs.append((s, t, [None, max(0, d - 1), d, d + 1, 0, 1000], False))
+    t0 = time.time()
+    rawl, faill, l2l = check_edit(ctx, longs, "long", fast=True, name="C19l", shard=1, modes=(0, 2))
+    ctx.log(f"edit long: {len(rawl)} pairs, {time.time()-t0:.0f}s")
+
+    # ---- band widths up to INT_MAX (the guard `e >= max(m, n)` of the code and of the model)
+    hb = [("ACG", "CGA"), ("ABC", "BD"), ("", ""), ("A", ""), ("ACGTACGT", "TGCATGCA"), ("A" * 20, "C" * 17)]
+    hb += [(s, t) for s, t, _, _ in gen_random_edit(rng, ctx.n(40, 400), 20)]
+    t0 = time.time()
+    rawh2, failh2, l2h2 = check_edit(ctx, [(s, t, HUGE_BANDS) for s, t in hb], "hugeband", fast=True, name="C19h", shard=100,
+                                    overflow_sig="editdist:band-int-overflow")
+    ctx.log(f"edit huge bands: {len(rawh2)} pairs, {time.time()-t0:.0f}s")
+
+    l2_all = l2e + l2r + l2y + l2l + l2h2
     if l2_all:
         ctx.disagreements_checked += len(l2_all)
         ctx.l2_disagreement("EditDist.edit_distance = whatshap.align.edit_distance (L2)", l2_all)
-        if not (faile["L1"] or failr["L1"]):
+        if not (faile["L1"] or failr["L1"] or faily["L1"] or faill["L1"] or failh2["L1"]):
             search_edit(ctx)
 
     # ---- non-ASCII str arguments
@@ -625,18 +1075,25 @@ def run(ctx):
 def replay(ctx, data):
     k = data.get("kind")
     if k == "G":
-        check_genotypes(ctx, [(data["al"], data["n"])], "replay")
+        check_genotypes(ctx, [(data["al"], data["n"], data.get("container", "list"))], "replay")
     elif k == "U":
         check_unindex(ctx, [(data["i"], data["p"], data["n"])], "replay")
+    elif k == "H":
+        check_histories(ctx, [(data["al0"], [tuple(s) for s in data["steps"]])], "replay")
     elif k == "P":
-        check_pairs(ctx, [(data["al"], data["bl"])], "replay")
+        check_pairs(ctx, [(data["al"], data["bl"], bool(data.get("same")))], "replay")
+    elif k == "S":
+        check_collections(ctx, [data["als"]], "replay")
     elif k == "B":
         check_binom(ctx, [(data["n"], data["k"])], "replay")
     elif k == "pickle":
-        check_pickle(ctx, [data["al"]])
+        check_pickle(ctx, [(data["al"], data.get("states", []))])
     elif k == "E":
         bands = [None if b is None else int(b) for b in data["bands"]]
-        check_edit(ctx, [(data["s"], data["t"], bands)], "replay", fast=len(data["s"]) + len(data["t"]) > 12)
+        big = any(b is not None and b > 10 ** 5 for b in bands)
+        check_edit(ctx, [(data["s"], data["t"], bands, bool(data.get("kw")))], "replay",
+                   fast=len(data["s"]) + len(data["t"]) > 12, modes=tuple(data.get("modes", ALL_MODES)),
+                   overflow_sig="editdist:band-int-overflow" if big else None)
     elif k == "nonascii":
         check_nonascii(ctx)
     else:
